@@ -60,6 +60,16 @@ CLAIMS = {
         note="cbmc 6.11 FP bit-blasting (MiniSat); rint is CBMC's model; quick tier covers log2overhead {0,18,29,48} (ref) and {29} (AVX), thorough all 0..48",
         technique="CBMC bounded model checking (SAT, IEEE-754 bit-precise) of the real conversion kernels, domain split by exponent class; native replay",
         ref="DESIGN.md 4/C14"),
+    "C10": dict(
+        text="The ten real q120 product kernels (reference and AVX2 through the shim) and the six layout conversions are executed symbolically "
+             "by CBMC; the exported VC is re-interpreted over the integers (vcalg IntDom: exact polynomials, rigorous intervals, floor-division "
+             "atoms for masks/shifts/%, sign-aware for the int64/int128 conversions). Every output lane is proved congruent to its specification "
+             "modulo its prime as a polynomial identity with integer witness (cross-checked by cvc5 QF_NIA), for ALL operand values of each layout, "
+             "ell in 0..3 (8 thorough); every intermediate add/mul/shift carries a discharged no-wrap obligation; b->int128 is the centered lift.",
+        note="cbmc 6.11 symex + own integer re-interpreter + cvc5; c-layout contract assumed; product precomputations dumped from the real builders; "
+             "ell>3(8) as one congruence is outside (additivity + C04 wrap-freedom)",
+        technique="CBMC symbolic execution of the real code, exported VC re-interpreted as integer polynomials with intervals (vcalg) + cvc5 QF_NIA identity checks; native replay",
+        ref="DESIGN.md 4/C10"),
 }
 
 NOT_YET = "check not built yet in this session (work in progress; see DESIGN.md section 4 for the plan)"
